@@ -5,7 +5,7 @@ import math
 import struct
 from decimal import Decimal
 
-from claripy.errors import ClaripyOperationError
+from claripy.errors import BackendError, ClaripyOperationError
 from claripy.fp import FSORT_DOUBLE, FSORT_FLOAT, RM, FSort
 
 from .bv import BVV, Concat
@@ -33,6 +33,15 @@ def normalize_types(f):
         return f(self, o)
 
     return normalize_helper
+
+
+def _only_nearest_even(rm):
+    """
+    Python floats round to nearest, ties to even. An operation under another rounding mode is not folded here: the
+    expression stays as it is and is left to a backend that implements the mode.
+    """
+    if rm is not RM.RM_NearestTiesEven:
+        raise BackendError(f"the concrete backend does not implement rounding mode {rm}")
 
 
 def _divide_by_zero(dividend, zero):
@@ -218,8 +227,11 @@ def fpToFP(a1, a2, a3=None):
 
         return FPV(unpacked, sort)
     if isinstance(a1, RM) and isinstance(a2, FPV) and isinstance(a3, FSort):
+        if a3.mantissa < a2.sort.mantissa:
+            _only_nearest_even(a1)  # widening is exact in every mode, narrowing rounds
         return FPV(a2.value, a3)
     if isinstance(a1, RM) and isinstance(a2, BVV) and isinstance(a3, FSort):
+        _only_nearest_even(a1)
         return FPV(float(a2.signed), a3)
     raise ClaripyOperationError("unknown types passed to fpToFP")
 
@@ -230,6 +242,7 @@ def fpToFPUnsigned(_rm, thing, sort):
     whose sort is `sort`.
     """
     # thing is a BVV
+    _only_nearest_even(_rm)
     return FPV(float(thing.value), sort)
 
 
@@ -382,6 +395,7 @@ def fpSub(_rm, a, b):
     """
     Returns the subtraction of the floating point `a` by the floating point `b`.
     """
+    _only_nearest_even(_rm)
     return a - b
 
 
@@ -389,6 +403,7 @@ def fpAdd(_rm, a, b):
     """
     Returns the addition of two floating point numbers, `a` and `b`.
     """
+    _only_nearest_even(_rm)
     return a + b
 
 
@@ -396,6 +411,7 @@ def fpMul(_rm, a, b):
     """
     Returns the multiplication of two floating point numbers, `a` and `b`.
     """
+    _only_nearest_even(_rm)
     return a * b
 
 
@@ -403,6 +419,7 @@ def fpDiv(_rm, a, b):
     """
     Returns the division of the floating point `a` by the floating point `b`.
     """
+    _only_nearest_even(_rm)
     return a / b
 
 
